@@ -491,6 +491,9 @@ def shard(ctx: Ctx) -> None:
     if conv.unmodelled:
         res.notes.setdefault("unmodelled_converters_not_judged", []).extend(sorted(conv.unmodelled))
     check_floats(ctx)
+    from vf.props import c14_s  # noqa: PLC0415
+
+    c14_s.shard(ctx)
 
 
 def replay(spec: dict[str, Any]) -> int:
